@@ -1,11 +1,12 @@
 #!/bin/sh
-# usage: seedall.sh [ids...]  -- run every seeded change (or the named ones) against the check of its property; prints a table
+# usage: seedall.sh [ids...]  -- run every seeded change (or the named ones) against the check(s) of its property
+# (meta.json "checks" lists them when a change is caught by another property's check); prints a table
 cd /verif
-ids=${*:-$(ls seeded)}
+ids=${*:-$(ls seeded | grep -v RESULTS)}
 for n in $ids; do
-  p=$(python3 -c "import json;print(json.load(open('seeded/$n/meta.json'))['property'])")
-  r=$(tools/seedrun.sh /verif/seeded/$n $p 2>&1)
+  ps=$(python3 -c "import json;m=json.load(open('seeded/$n/meta.json'));print(' '.join(m.get('checks',[m['property']])))")
+  r=$(tools/seedrun.sh /verif/seeded/$n $ps 2>&1)
   v=$(echo "$r" | grep -c "^VIOLATION")
   i=$(echo "$r" | grep -c "^INCONCLUSIVE")
-  echo "$n property=$p violations=$v inconclusive=$i $(echo "$r" | grep '^SEED' | sed 's/.*exit=/exit=/')"
+  echo "$n checks=$(echo $ps | tr ' ' ',') violations=$v inconclusive=$i $(echo "$r" | grep '^SEED' | sed 's/.*exit=/exit=/' | tr '\n' ' ')"
 done
